@@ -64,6 +64,13 @@ class SampleAlgebra(ToSympy):
             if self.const is not None:
                 return body.subs(xi, self.const) + sp.log(Nn)
             return sp.log(Nn * MEAN(sp.exp(body)))
+        if t.op == "sum" and isinstance(a[0], Op) and a[0].op == "attr_values" and isinstance(a[0].args[0], Op) and a[0].args[0].op == "topk":
+            # the sum of the k smallest / largest outcomes = k times their mean
+            self.dim_of(t)
+            tk = a[0].args[0]
+            body, k = self.conv(tk.args[0]), self.conv(tk.args[1])
+            self.dims_seen.append(("topk", tk.kwd().get("dim")))
+            return k * self.red(KMEAN_L if tk.kwd().get("largest", True) else KMEAN_S, body, k)
         if t.op == "sum":
             self.dim_of(t)
             return self.red(lambda b: Nn * MEAN(b), self.conv(a[0])) if self.const is None else Nn * self.conv(a[0])
